@@ -22,7 +22,7 @@ Print Assumptions c08_policy_table.
 Theorem c08_server_any_peer : forall mexp o hashes s r,
   fst (op_run (server_prog mexp o hashes) s) = OK r ->
   permits o (mode_of r) = true /\ exists id, In (h_hash r, id) hashes.
-Proof. intros mexp o hashes. exact (all_done_op _ _ (server_prog_done mexp o hashes)). Qed.
+Proof. exact server_any_peer. Qed.
 Print Assumptions c08_server_any_peer.
 
 (* The same for the client against any server and any crypto_select value, for both handshake
@@ -30,7 +30,7 @@ Print Assumptions c08_server_any_peer.
 Theorem c08_client_any_peer : forall mexp crypto o infohash myid s r,
   fst (op_run (client_prog mexp crypto o infohash myid) s) = OK r ->
   permits o (mode_of r) = true /\ h_hash r = infohash.
-Proof. intros mexp crypto o infohash myid. exact (all_done_op _ _ (client_prog_done mexp crypto o infohash myid)). Qed.
+Proof. exact client_any_peer. Qed.
 Print Assumptions c08_client_any_peer.
 
 Theorem c08_select_sound : forall provide o,
